@@ -533,6 +533,14 @@ def callable_roles(ctx: Ctx, A: Anchors) -> list[tuple[Func, str]]:
     for m in list(methods):
         methods += list(m.nested.values())
     for m in methods:
+        for n in nodes_in(m, ast.Assign):
+            # entry["jac"] = ...
+            for tg in n.targets:
+                if isinstance(tg, ast.Subscript) and isinstance(tg.slice, ast.Constant):
+                    if tg.slice.value in ("fun", "func"):
+                        note(n.value, m, "F")
+                    elif tg.slice.value == "jac":
+                        note(n.value, m, "G")
         for n in nodes_in(m, (ast.Call, ast.Dict)):
             if isinstance(n, ast.Call):
                 for kw in n.keywords:
